@@ -64,6 +64,10 @@ impl<'a, S: GraphSnapshot> Iterator for FilterIter<'a, S> {
                         self.snapshot,
                         self.params,
                     );
+                    // An error raised while evaluating the predicate (EXISTS subquery).
+                    if let Err(err) = self.params.take_failure() {
+                        return Some(Err(err));
+                    }
                     if pass {
                         return Some(Ok(row));
                     }
